@@ -24,7 +24,7 @@ from vt import Infra
 MAXIN = 3
 OLD = b"OLD CONTENT\n"
 KINDS = ("c", "s", "o")
-STRACE = ["strace", "-f", "-s", "8192", "-e", "trace=execve,openat,open,creat,unlink,unlinkat,rename,renameat,renameat2,wait4,exit_group"]
+STRACE = [shutil.which("strace") or "strace", "-f", "-s", "8192", "-e", "trace=execve,openat,open,creat,unlink,unlinkat,rename,renameat,renameat2,wait4,exit_group"]
 
 
 def user_paths():
@@ -197,7 +197,7 @@ def parse_strace(text, cwd):
                 evs.append(dict(e="start"))
             continue
         isdrv = pid == driver
-        k = kids.setdefault(pid, dict(execd=False, reads=[], writes=[], unlinks=[])) if not isdrv else None
+        k = kids.setdefault(pid, dict(execd=False, tried=None, reads=[], writes=[], unlinks=[])) if not isdrv else None
         if rest.startswith("+++ exited with") or rest.startswith("+++ killed by"):
             if isdrv and not done:
                 done = True
@@ -213,6 +213,8 @@ def parse_strace(text, cwd):
         ok = not res.startswith("-1")
         strs = [unesc(x) for x in STR.findall(rest.rsplit(")", 1)[0])]
         if call == "execve":
+            if not ok and not isdrv and not k["execd"] and k["tried"] is None:
+                k["tried"] = strs[1:] or strs       # what the child wanted to become (kept in case no attempt succeeds)
             if not ok or isdrv:
                 continue            # PATH search misses; the shim becoming the real driver
             if not k["execd"]:
@@ -268,6 +270,11 @@ def parse_strace(text, cwd):
             cpid = int(mm.group(1))
             st, n = wstatus(rest)
             c = kids.get(cpid, dict(reads=[], writes=[], unlinks=[]))
+            if c.get("tried") and not c.get("execd"):
+                # a child that never became a program (fork+execvp failing, or posix_spawn's helper):
+                # the step could not be started; how the driver learns it is its own business
+                evs.append(dict(child_exec_event(c["tried"], norm), e="execfail"))
+                continue
             evs.append(dict(e="run", reads=c["reads"], writes=c["writes"], unlinks=c["unlinks"]))
             evs.append(dict(e="wait", status=st))
             if n == 98:
@@ -322,14 +329,30 @@ def populate(inputs, b, cwd, outs=("out1",)):     # outs: -o paths whose directo
     return orig
 
 
+def noexec_flavour(b):
+    """missing from PATH or present but not executable: fixed per behaviour (not per seed)"""
+    return "eacces" if (len(b["ins"]) + b["fault"]["k"] + (b["pre"] == "old") + bool(b["o"])) % 2 else "enoent"
+
+
 def run_driver(ctx, tree, shim, b, rundir, cwd, d=1, popen=False):
     cnt = os.path.join(rundir, "cnt%d" % d)
     os.makedirs(cnt, exist_ok=True)
     shimdir, real = shim
-    env = dict(os.environ, PATH=shimdir + ":/usr/bin:/bin", C14_CNT=cnt, C14_REAL_CC=tree + "/chibicc",
-               C14_REAL_AS=real["as"], C14_REAL_LD=real["ld"], LC_ALL="C")
-    env.pop("CHIBICC_VERIF_TRACE", None)
     f = b["fault"]
+    env = {}
+    if f["how"] == "noexec":
+        # the k-th call of the tool cannot be started: a private copy of the shim directory in which
+        # the call before it removes the tool (ENOENT) or puts a non-executable file in its place (EACCES); PATH holds
+        # nothing else, so execvp finds no other `as` / `ld`
+        mine = os.path.join(rundir, "shim%d" % d)
+        os.makedirs(mine)
+        for n in ("chibicc", "as", "ld"):      # hard links, not copies: no descriptor open for writing while other threads fork
+            os.link(os.path.join(shimdir, n), os.path.join(mine, n))
+        shimdir = mine
+        env = dict(C14_SHIMDIR=mine, C14_NOEXEC=noexec_flavour(b))
+    env = dict(os.environ, PATH=shimdir if f["how"] == "noexec" else shimdir + ":/usr/bin:/bin", C14_CNT=cnt,
+               C14_REAL_CC=tree + "/chibicc", C14_REAL_AS=real["as"], C14_REAL_LD=real["ld"], LC_ALL="C", **env)
+    env.pop("CHIBICC_VERIF_TRACE", None)
     env["C14_FAULT"] = "%s:%d:%s" % (f["t"], f["k"], f["how"]) if f["t"] in ("cc1", "as", "ld") else ""
     st = os.path.join(rundir, "strace%d.txt" % d)
     cmd = STRACE + ["-o", st, shimdir + "/chibicc"] + argv_of(b, d)
@@ -437,6 +460,8 @@ def ev_summary(mode, ev, before=()):
         return "run:w=%s:u=%s" % (",".join(cls(x) for x in ev["writes"]), ",".join(cls(x) for x in ev["unlinks"]))
     if k == "wait":
         return "wait:" + ev["status"]
+    if k == "execfail":
+        return "execfail:" + ev["tool"]
     if k == "exit":       # with how many of the temporaries made so far already unlinked
         return "exit:%d:unlinked=%d/%d" % (ev["code"], len([1 for x in before if x["e"] == "unlink"]), len([1 for x in before if x["e"] == "mkstemp"]))
     if k == "unlink":
